@@ -133,3 +133,23 @@ func altsEqual(a, b []model.AlternativeWithCriteria) bool {
 func (s *stateSnap) liveUnchanged() bool {
 	return s == nil || sxString(dmpSX(s.Live)) == s.SX
 }
+
+func altByID(as []model.AlternativeWithCriteria) map[string]model.Weights {
+	m := map[string]model.Weights{}
+	for _, a := range as {
+		m[a.Id] = a.Criteria
+	}
+	return m
+}
+
+func weightsEq(a, b map[string]float64) bool {
+	if len(a) != len(b) {
+		return false
+	}
+	for k, v := range a {
+		if w, ok := b[k]; !ok || w != v {
+			return false
+		}
+	}
+	return true
+}
